@@ -225,6 +225,29 @@ Theorem episode_end_cuts_estimates : forall g l rs vs env_dones nv rs' vs' env_d
 Proof. exact episode_end_cuts_estimates_lemma. Qed.
 Print Assumptions episode_end_cuts_estimates.
 
+(* Rollout lists whose entries have different Python / numpy number types (int or bool first, floats later): np.stack
+   converts them to the common type, which keeps every recorded VALUE; so the estimates are those of the recorded values,
+   whatever the types were. *)
+Theorem stack_keeps_values : forall l, map num_val (stack_nums l) = map num_val l.
+Proof. exact stack_nums_values. Qed.
+Print Assumptions stack_keeps_values.
+
+Theorem gae_after_stack : forall g l rs vs ds nv nd,
+  gae_col g l (map num_val (stack_nums rs)) (map num_val (stack_nums vs)) (map num_val (stack_nums ds)) nv nd =
+  gae_col g l (map num_val rs) (map num_val vs) (map num_val ds) nv nd.
+Proof. exact gae_after_stack_lemma. Qed.
+Print Assumptions gae_after_stack.
+
+(* a stacking that keeps the type of the first entry truncates later fractional entries: different estimates *)
+Theorem stack_first_kind_refuted :
+  exists rs : list num,
+    map num_val (stack_first_kind rs) <> map num_val rs /\
+    let zeros := [0; 0; 0; 0] in
+    nth 0 (advs_of (gae_col 1 1 (map num_val (stack_first_kind rs)) zeros zeros 0 0)) 0 == 1 /\
+    nth 0 (advs_of (gae_col 1 1 (map num_val (stack_nums rs)) zeros zeros 0 0)) 0 == 9 # 4.
+Proof. exact stack_first_kind_wrong. Qed.
+Print Assumptions stack_first_kind_refuted.
+
 (* behaviours that violate the property (each found on a tree of /repo, see DESIGN / design.d/C17.md) *)
 Theorem ippo_old_order_refuted :
   exists (obs : list (list (list Z))) (R : list (list (list Q))) (nv : list (list Q)),
